@@ -913,8 +913,11 @@ def pure_manual(sc, base, seed, pid="C10"):
         sim = scen.build_sim(tw)
         dt = int(sc["model"].get("dt", 1))
         crashed = False
+        # (the period of the simulation's own crash / equilibrium checks is a matter of reporting: with frequent checks the
+        #  records are the same)
+        kwn = {} if seed % 4 == 1 else {"check_period": 3 * dt, "min_steps_check": dt}
         for _ in range(0, sc["T"], dt):
-            if sim.next_step() == 1:
+            if sim.next_step(**kwn) == 1:
                 crashed = True
                 break
         b = {r: getattr(sim, r).to_numpy(dtype=float).copy() for r in RECORDS}
@@ -923,7 +926,7 @@ def pure_manual(sc, base, seed, pid="C10"):
         b["columns"] = list(sim.production_realised.columns)
     except Exception as e:
         b = {"error": f"{type(e).__name__}: {e}"}
-    out += cmp_records(pid, base, b, "the run driven by next_step() calls only, against loop()")
+    out += cmp_records(pid, base, b, "the run driven by next_step() calls only" + (" (equilibrium check every 3 steps)" if kwn else "") + ", against loop()")
     return out
 
 
@@ -989,3 +992,11 @@ def c19_periodic_c14(sc, base, seed):
     for v in out:
         v["property"] = "C14"
     return out
+
+
+def pure_manual_c14(sc, base, seed):
+    return pure_manual(sc, base, seed, pid="C14")
+
+
+def pure_manual_c02(sc, base, seed):
+    return pure_manual(sc, base, seed, pid="C02")
